@@ -36,6 +36,12 @@ type liveNet struct {
 }
 
 func newLiveNet(seed int64, n int, tune func(c *config.Config)) (*liveNet, error) {
+	return newLiveNetJ(seed, n, tune, nil)
+}
+
+// newLiveNetJ: with a jitter source, every node's store, transport and
+// application are wrapped in the delaying decorators of jitter.go.
+func newLiveNetJ(seed int64, n int, tune func(c *config.Config), j *jitter) (*liveNet, error) {
 	ln := &liveNet{}
 	var ps []*peers.Peer
 	for i := 0; i < n; i++ {
@@ -68,8 +74,15 @@ func newLiveNet(seed int64, n int, tune func(c *config.Config)) (*liveNet, error
 		l.Conf = conf
 		l.App = NewApp(fmt.Sprintf("live%d", i))
 		l.Proxy = inmem.NewInmemProxy(l.App, conf.Logger())
+		var store hg.Store = hg.NewInmemStore(conf.CacheSize)
+		var trans bnet.Transport = l.Trans
+		if j != nil {
+			store = &jitterStore{Store: store, j: j}
+			trans = &jitterTransport{Transport: l.Trans, j: j}
+			l.App.Jitter = j
+		}
 		l.Node = node.NewNode(conf, node.NewValidator(l.Key.K, l.Peer.Moniker), peers.NewPeerSet(clonePeers(ps)), peers.NewPeerSet(clonePeers(ps)),
-			hg.NewInmemStore(conf.CacheSize), l.Trans, l.Proxy)
+			store, trans, l.Proxy)
 		if err := l.Node.Init(); err != nil {
 			return nil, err
 		}
